@@ -110,7 +110,7 @@ PROPS = {
     ),
     'C02': dict(
         title='Hayson encode -> decode returns the original value',
-        verus=[('u_getters', [r'^parse_ref$', r'^parse_symbol$', r'^parse_uri$', r'^parse_coord$']),
+        verus=[('u_getters', [r'^parse_ref$', r'^parse_symbol$', r'^parse_uri$', r'^parse_coord$', r'^parse_xstr$', r'^parse_date$', r'^parse_time$', r'^parse_datetime$']),
                ('u_jenc', [r'::serialize$']),
                ('u_tz', [r'^is_utc$'])],
         kani=[dict(harness='k_json_visit_numbers', klass='complete', schema='raw', family='json-visit', target='JsonValueDecoderVisitor::visit_{i8..u64,f64}'),
@@ -134,7 +134,7 @@ PROPS = {
     ),
     'C05': dict(
         title='Hayson JSON conforms to the Project Haystack JSON encoding',
-        verus=[('u_getters', [r'^parse_ref$', r'^parse_symbol$', r'^parse_uri$', r'^parse_coord$', r'^Dict::get_str$', r'^Dict::get_num$']),
+        verus=[('u_getters', [r'^parse_ref$', r'^parse_symbol$', r'^parse_uri$', r'^parse_coord$', r'^parse_xstr$', r'^parse_date$', r'^parse_time$', r'^parse_datetime$', r'^Dict::get_str$', r'^Dict::get_num$']),
                ('u_jenc', [r'::serialize$', r'^jv_']),
                ('u_jdec', [r'^JsonValueDecoderVisitor::visit_map$', r'^JsonValueDecoderVisitor::visit_seq$', r'^lemma_members_by_membership$', r'^lemma_kind_by_membership$', r'^lemma_no_kind$',
                            r'^lemma_perm_same_reading$', r'^lemma_object_members_in_any_order$'])],
@@ -160,7 +160,7 @@ PROPS = {
                     'values and member names of the Hayson table (typed into the harness from the specification), in a map of the stated size. '
                     'Reader side (Verus, real bodies): parse_ref / parse_symbol / parse_uri / parse_coord succeed exactly when the members the '
                     'table requires (val; lat and lng) are present with the right kind, and build the value from exactly those members (dis optional).'),
-        not_decided=('Reader side: the per-kind decoders behind visit_map other than ref/symbol/uri/coord are uninterpreted functions of the member map; objects with a repeated member name; parse_xstr (this Verus crashes on a local named r#type), parse_number (closures capturing the dict), parse_date/time/datetime (chrono), parse_grid (iterator adapters); '
+        not_decided=('Reader side: the per-kind decoders behind visit_map other than ref/symbol/uri/coord are uninterpreted functions of the member map; objects with a repeated member name; parse_number (closures capturing the dict), parse_grid (iterator adapters); the chrono parsers behind parse_date/time/datetime are uninterpreted functions of the text (the decoders are proved to read the right members and, for dateTime, to use tz exactly when it is present); '
                      'Date/Time/DateTime text (chrono, uninterpreted); JSON number spellings and string escaping (serde_json); Number::serialize is '
                      'trusted in the Verus unit and decided by the Kani harnesses; the model serializer (what serialize_map / serialize_entry / '
                      'serialize_seq / end do) is an assumption about serde; Kani payload strings are concrete 2-byte strings.'),
@@ -197,6 +197,7 @@ PROPS = {
                ('u_zparse', [r'^parse_time_zone$', r'^parse_time_zone_name$']),
                ('u_enc', [r'^DateTime::to_zinc$']),
                ('u_jenc', [r'^DateTime::serialize$']),
+               ('u_getters', [r'^parse_datetime$']),
                ('u_capi', [r'^haystack_value_get_datetime_date$', r'^haystack_value_get_datetime_time$'])],
         kani=[dict(harness='k_fixed_tz_utc_iff_zero', klass='complete', schema='raw', family='fixed-tz', target='timezone::fixed_timezone', timeout=600)],
         witness=['enum:hayson-roundtrip', 'enum:zinc-escape', 'enum:rfc3339-offsets'],
